@@ -128,6 +128,11 @@ func (fx *Fx) evalPlace(st *State, e ast.Expr, spec bool) Place {
 	case *ast.BinaryExpr:
 		return Place{val: fx.evalBinary(st, x, spec)}
 	case *ast.CallExpr:
+		if id, ok := x.Fun.(*ast.Ident); ok && spec && id.Name == "scannercell" && len(x.Args) == 1 {
+			sv := fx.eval(st, x.Args[0], true)
+			fx.scannerCell(st, sv.X)
+			return Place{loc: &Loc{kind: locCell, key: "ghost_scanner", ref: sv.X, T: sv.T, S: scannerSort}}
+		}
 		if id, ok := x.Fun.(*ast.Ident); ok && spec && id.Name == "mapcell" && len(x.Args) == 1 {
 			// mapcell(m): the contents of map m, as a location (for modifies clauses)
 			mv := fx.eval(st, x.Args[0], true)
@@ -337,8 +342,17 @@ func (fx *Fx) evalSelector(st *State, x *ast.SelectorExpr, spec bool) Place {
 				base := fx.evalPlace(st, x.X, spec)
 				return fx.walkFields(st, base, sel.Recv(), sel.Index(), exprText(x.X), spec)
 			case types.MethodVal:
-				recv := fx.eval(st, x.X, spec)
 				fn := sel.Obj().(*types.Func)
+				rp := fx.evalPlace(st, x.X, spec)
+				if len(sel.Index()) > 1 {
+					rp = fx.walkFields(st, rp, sel.Recv(), sel.Index()[:len(sel.Index())-1], exprText(x.X), spec)
+				}
+				var recv Val
+				if _, isIface := sel.Recv().Underlying().(*types.Interface); isIface {
+					recv = fx.get(st, rp)
+				} else {
+					recv = fx.receiverValue(st, rp, fn.Type().(*types.Signature), exprText(x.X), spec)
+				}
 				return Place{val: Val{T: sel.Type(), S: SRef, X: fx.d.freshConst("methodval_"+fn.Name(), SRef), Fn: &Closure{Recv: &recv, Key: fx.v.funcKey(fn)}}}
 			}
 			panic(unsupported("selection kind in " + exprText(x)))
@@ -624,8 +638,15 @@ func (fx *Fx) binop(st *State, op token.Token, a, b Val, text string, spec bool)
 			eq = eqLit(a.X, *b.Lit)
 		case a.S == SStr && a.Lit != nil:
 			eq = eqLit(b.X, *a.Lit)
+		case a.S == SRef && b.S != SRef && b.X != "nil":
+			eq = app("=", a.X, fx.box(st, b, a.T).X)
+		case b.S == SRef && a.S != SRef && a.X != "nil":
+			eq = app("=", fx.box(st, a, b.T).X, b.X)
 		default:
 			eq = app("=", a.X, b.X)
+			if a.X == b.X {
+				eq = "true"
+			}
 		}
 		if op == token.NEQ {
 			return boolV(not(eq))
@@ -704,6 +725,9 @@ func (fx *Fx) evalComposite(st *State, x *ast.CompositeLit, spec bool) Val {
 	t := fx.typeOf(x)
 	if t == nil {
 		panic(unsupported("composite literal without type"))
+	}
+	if n, ok := t.(*types.Named); ok && isStringsBuilder(n) {
+		return Val{T: t, S: SStr, X: "str_empty"}
 	}
 	switch u := t.Underlying().(type) {
 	case *types.Struct:
